@@ -109,6 +109,7 @@ class LogCtx(BaseCtx):
         self.crashes_left = cfg["n_crashes"]
         self.restarts_left = cfg["n_restarts"]
         self.sent_sweep = False
+        self.reported = 0
 
     # ------------------------------------------------------------------ generation
     def choose(self, rng):
@@ -226,6 +227,11 @@ class LogCtx(BaseCtx):
             self.check_boot()
             # after every (re)start the log on disk must already be consistent
             audit(self.fs, msgdir(self.cfg))
+        logging_cb = ("on_update_error", "update_received", "send_open", "open_received", "route_refresh_received",
+                      "notification_received", "on_connection_lost", "on_connection_failed")
+        for e in w.log[pos:]:
+            if e[2] == "h" and (e[3] in logging_cb or (e[3] == "keepalive_received" and self.cfg["write_keepalive"])):
+                self.reported += 1
         self.stats["records_acked"] += self.fs.fsyncs - fsyncs
         if self.fs.fsyncs > fsyncs:
             self.nontrivial = True
@@ -257,6 +263,14 @@ class LogCtx(BaseCtx):
         if not w.exited:
             self.fs.process_exit()
         nlines, nfrag = audit(self.fs, msgdir(self.cfg))
+        # every reported event has its line: without a crash exactly, with crashes at most one event per
+        # crash (the one being written) may be missing
+        ncrash = len(self.fs.crashes)
+        if nlines > self.reported or nlines < self.reported - ncrash:
+            raise Violation("C20", "audit", "lines-vs-reported-events/%s" % ("fewer" if nlines < self.reported else "more"),
+                            "the session layer reported %d events to the handler (%d crashes in the run); the log holds %d "
+                            "complete records (files: %s)" % (self.reported, ncrash, nlines,
+                                                             self.fs.listing(msgdir(self.cfg)) if msgdir(self.cfg) in self.fs.dirs else []))
         self.stats["audited_lines"] += nlines
         self.stats["tolerated_crash_fragments"] += nfrag
         if msgdir(self.cfg) in self.fs.dirs and len(self.fs.listing(msgdir(self.cfg))) > 1:
@@ -406,9 +420,12 @@ class LogProfile(BaseProfile):
         cfg["p_crash"] = rng.pick([0.05, 0.15, 0.3])
         cfg["p_restart"] = rng.pick([0.03, 0.1])
         cfg["crash_window"] = rng.pick([3, 10, 40, 120])
-        if rng.chance(0.15):
-            # an IPv6 peer written with upper-case hex digits (the option keeps the spelling)
-            cfg["remote_addr"] = "2001:DB8::2"
+        if rng.chance(0.2):
+            # an IPv6 peer written with upper-case hex digits / in a non-canonical form (the option keeps
+            # the operator's spelling)
+            cfg["remote_addr"] = rng.pick(["2001:DB8::2", "2001:db8:0:0:0:0:0:2", "2001:0DB8::0002"])
+        # a coarse wall clock: two file names chosen at one instant are equal
+        cfg["coarse_clock"] = rng.chance(0.25)
         cfg["peer_open"] = rp.encode_open(cfg["remote_as"], rng.pick([0, 90]), "2.2.2.2",
                                           [rp.cap_mp(1, 1), rp.cap_rr(), rp.cap_as4(cfg["remote_as"])]).hex()
         every = max(1, self.runs[tier] // self.sweeps[tier])
